@@ -16,8 +16,8 @@ use serde_json::json;
 
 pub struct C13;
 
-const MIX_QUICK: Mix = Mix { input: [50, 30, 8, 8, 4], max_events: 8, max_decoders: 2, size_classes: [5, 2, 0, 4], source_faults: true };
-const MIX_THOROUGH: Mix = Mix { input: [50, 30, 8, 8, 4], max_events: 14, max_decoders: 3, size_classes: [5, 3, 1, 4], source_faults: true };
+const MIX_QUICK: Mix = Mix { input: [50, 30, 8, 8, 4], max_events: 8, max_decoders: 2, size_classes: [5, 2, 0, 4], source_faults: true, hdr_bias: false };
+const MIX_THOROUGH: Mix = Mix { input: [50, 30, 8, 8, 4], max_events: 14, max_decoders: 3, size_classes: [5, 3, 1, 4], source_faults: true, hdr_bias: false };
 
 /// The invariant itself.  Returns a violation description.
 pub fn pipeline_invariant(slot: &mut Slot, st: &mut Stats) -> Option<Violation> {
